@@ -273,7 +273,7 @@ var (
 	gbMolTypes  = []string{"DNA", "mRNA", "tRNA", "rRNA"}
 	gbMonths    = []string{"JAN", "FEB", "MAR", "APR", "MAY", "JUN", "JUL", "AUG", "SEP", "OCT", "NOV", "DEC"}
 	gbFeatKeys  = []string{"gene", "CDS", "misc_feature", "source", "promoter", "terminator", "rep_origin", "mRNA", "tRNA", "regulatory", "5'UTR", "3'UTR", "primer_bind", "-10_signal", "sig_peptide", "exon", "intron", "protein_bind"}
-	gbTextKeys  = []string{"gene", "product", "note", "label", "locus_tag", "db_xref", "function", "standard_name", "organism", "mol_type", "experiment", "inference", "allele", "old_locus_tag", "bound_moiety"}
+	gbTextKeys  = []string{"gene", "product", "note", "label", "locus_tag", "db_xref", "function", "standard_name", "organism", "mol_type", "experiment", "inference", "allele", "old_locus_tag", "bound_moiety", "variety", "type_material", "sub_strain", "EC_number", "PCR_primers", "strain"}
 	gbNumKeys   = []string{"codon_start", "transl_table", "number", "citation_no"}
 	gbFlagKeys  = []string{"pseudo", "partial", "ribosomal_slippage", "trans_splicing", "environmental_sample"}
 	gbExtraKeys = []string{"COMMENT", "DBLINK", "DBSOURCE", "PROJECT", "PRIMARY", "CONTIG", "SEGMENT"}
